@@ -510,6 +510,8 @@ def main(argv):
         if not disagreements and spec.get("conc"):
             import conc
             for prof, monitors, oracles in spec["conc"]("quick", seed + 1000):
+                if hasattr(prof, "programs"):
+                    continue            # window sweeps are deterministic: already run above
                 prof.n = prof.n * 3
                 fails = conc.run_profile(prof, seed + 1000, monitors, oracles, stats)
                 stats["conc_failures"] += len(fails)
